@@ -541,7 +541,19 @@ def directional_difference(e, point, g, rng, ndir=3, ncoord=10):
         step = vals[0][1] - vals[1][1]                       # the step actually taken after rounding to the working precision
         nv = float(np.abs(v).sum())
         fd = vals[0][0] - vals[1][0]
-        out.append((float(g @ step), fd, 100 * eps * (max(abs(vals[0][0]), abs(vals[1][0])) + 1.0), float(np.abs(g).max() * np.abs(step).max() * (nv ** 0.5))))
+        # a kink inside the stencil (clamp, knee of a transfer curve, max/min): the two one-sided differences disagree with each other.  The
+        # property is stated away from non-smooth points, and a wrong gradient does not make the one-sided differences disagree, so such a
+        # direction says nothing about the gradient and is left out
+        try:
+            f0 = real_objective(e, round_point(e, point), need_grad=False)[0]
+            fwd, bwd = vals[0][0] - f0, f0 - vals[1][0]
+            noise0 = 100 * eps * (max(abs(vals[0][0]), abs(vals[1][0])) + 1.0)
+            if abs(fwd - bwd) > 0.3 * max(abs(fwd), abs(bwd)) + noise0:
+                continue
+        except Exception:
+            pass
+        # rounding noise of the two function values; it grows with the number of inputs perturbed at once (a +-1 direction over all of them)
+        out.append((float(g @ step), fd, 100 * eps * (max(abs(vals[0][0]), abs(vals[1][0])) + 1.0) * (1.0 + 0.25 * nv ** 0.5), float(np.abs(g).max() * np.abs(step).max() * (nv ** 0.5))))
     return out
 
 
@@ -564,6 +576,7 @@ def oracle_sweep(inp):
         for dd, fd, noise, scale in directional_difference(e, point, g, _random.Random(inp['seed'] + 1)):
             allowed = tol * max(abs(dd), abs(fd), 0.02 * scale) + noise
             if worst is None or abs(dd - fd) - allowed > worst[0]: worst = (abs(dd - fd) - allowed, dd, fd, allowed)
+        if worst is None: worst = (0.0, 0.0, 0.0, 0.0)          # every sampled direction crossed a kink: nothing to compare at this point
         res.append(('gradient_equals_central_difference', worst[0] <= 0, 'directional derivatives within rel %g + float noise' % tol,
                     {'autograd_directional': worst[1], 'central_difference': worst[2], 'allowed': worst[3]}))
     return res
